@@ -27,6 +27,8 @@ def plan(tier, seed):
     cases = [{"kind": "kernel", "index": i, "seed": [seed, 151, i], "env": {"VERIF_X64": "1"}} for i in range(nk)]
     cases += [{"kind": "grid", "index": i, "seed": [seed, 152, i], "n_grids": 3, "env": {"VERIF_X64": "1"}} for i in range(ng)]
     cases += [{"kind": "kernel", "index": i, "seed": [seed, 153, i], "env": {"VERIF_X64": "0"}} for i in range(nk // 8)]
+    # arrays that hold infinite entries (value arrays legitimately contain -inf): integer and interior coordinates
+    cases += [{"kind": "kernel_inf", "index": i, "seed": [seed, 155, i], "env": {"VERIF_X64": "1" if i % 4 else "0"}} for i in range(nk // 4)]
     cases += [{"kind": "grid", "index": i, "seed": [seed, 154, i], "n_grids": 3, "env": {"VERIF_X64": "0"}} for i in range(ng // 8)]
     return cases
 
@@ -90,6 +92,49 @@ def run_case(case):
         res["sig"] = f"k{rank}{shape}m{mode}"
         res["nontrivial"] = bool(cnt["kernel_outside_points"] > 0 and K > 1)
         res["sample"] = {"kind": "kernel", "shape": list(shape), "mode": ["list", "list", "stacked", "scalar"][mode], "points": K}
+    elif case["kind"] == "kernel_inf":
+        from lcm.ndimage import map_coordinates
+
+        rank = int(rng.integers(1, 4))
+        shape = tuple(int(x) for x in rng.integers(2, 7, rank))
+        arr = rng.normal(size=shape) * 10 ** rng.uniform(-1, 2)
+        sign = -1.0 if case["index"] % 3 else 1.0  # never both signs in one array (inf - inf has no value)
+        holes = rng.random(shape) < rng.uniform(0.1, 0.5)
+        if holes.all():
+            holes.flat[0] = False
+        arr = np.where(holes, sign * np.inf, arr)
+        K = 64
+        coords = []
+        for n in shape:
+            r = rng.random(K)
+            coords.append(np.where(r < 0.6, rng.integers(0, n, K).astype(float), rng.uniform(0, n - 1, K)))
+        a_used = arr if x64 else arr.astype(np.float32).astype(float)
+        try:
+            got = np.asarray(map_coordinates(jnp.asarray(arr), [jnp.asarray(c) for c in coords]), dtype=float).reshape(-1)
+        except Exception as e:  # noqa: BLE001
+            res["violations"].append({"key": pipeline.exc_key(e, "map_coordinates"), "what": pipeline.exc_text(e)})
+            res["status"] = "violated"
+            return res
+        exp = np.asarray(ref_map_coordinates(a_used, coords), dtype=float).reshape(-1)
+        judged = ~np.isnan(exp)
+        fin = np.isfinite(a_used)
+        scale = np.abs(a_used[fin]).max() if fin.any() else 1.0
+        tol = 1e-11 if x64 else 2e-4
+        with np.errstate(invalid="ignore"):
+            okv = (got == exp) | (np.abs(got - exp) <= tol * (1 + scale))
+        cnt["kernel_inf_points"] = int(judged.sum())
+        allint = np.all([c == np.floor(c) for c in coords], axis=0)
+        cnt["kernel_inf_integer_points"] = int((judged & allint).sum())
+        cnt["kernel_inf_points_next_to_infinite_entries"] = int((judged & np.isfinite(exp)).sum())
+        bad = judged & ~okv
+        if bad.any():
+            i0 = int(np.nonzero(bad)[0][0])
+            kind_ = "integer" if allint[i0] else "fractional"
+            res["violations"].append({"key": f"kernel_infinite_neighbour|{kind_}_coordinates",
+                                      "what": f"rank {rank} shape {shape} array with {'-' if sign < 0 else '+'}inf entries: map_coordinates={got[i0]!r}, expected {exp[i0]!r} at coords {[float(c[i0]) for c in coords]} ({int(bad.sum())}/{int(judged.sum())} points; a corner with weight 0 must not contribute)"})
+        res["sig"] = f"kinf{rank}{shape}{sign}"
+        res["nontrivial"] = bool(judged.sum() > 0)
+        res["sample"] = {"kind": "kernel_inf", "shape": list(shape), "infinite_entries": int(holes.sum()), "sign": sign}
     else:
         from lcm.grids import LinspaceGrid, LogspaceGrid
         from lcm.ndimage import map_coordinates
